@@ -1,2 +1,3 @@
 pub mod gdsreal;
+pub mod geom;
 pub mod gdsspec;
